@@ -23,9 +23,13 @@ type NPEndpoint *Endpoint
 type NPList *[]string
 type NPMap *map[string]int
 type NPBytes **uint8
+type NPHidden *Hidden
+
+// those pointing to a struct
+var namedStructPtrs = []reflect.Type{reflect.TypeOf(NPEndpoint(nil)), reflect.TypeOf(NPHidden(nil))}
 
 var namedPtrs = []reflect.Type{
-	reflect.TypeOf(NPInt(nil)), reflect.TypeOf(NPEndpoint(nil)), reflect.TypeOf(NPList(nil)), reflect.TypeOf(NPMap(nil)), reflect.TypeOf(NPBytes(nil)),
+	reflect.TypeOf(NPInt(nil)), reflect.TypeOf(NPEndpoint(nil)), reflect.TypeOf(NPList(nil)), reflect.TypeOf(NPMap(nil)), reflect.TypeOf(NPBytes(nil)), reflect.TypeOf(NPHidden(nil)),
 }
 
 // typeHas reports whether pred holds for t or a type t is composed of
